@@ -14,18 +14,49 @@
 (* profiles).  Slicing = "droplast" models the defect L-C11 (H[:-1],       *)
 (* g[:-1] applied to arrays that already have n entries) and is used by an *)
 (* expected-counterexample config only.                                    *)
+(*                                                                         *)
+(* Second round.  Chemistry (the composition is a TABLE tab[layer][gas]    *)
+(* with pairwise distinct entries; mix[gas][layer] is exposed and mu, the  *)
+(* weighted mean of the layer's row, is what the hydrostatic recurrence    *)
+(* uses; ChemLayout = "transposed_if_square" models a reader that keeps a  *)
+(* square table un-transposed).  Returned(u): what a route hands back when *)
+(* asked for a length unit of 1/u metres; UnitAt = "loop" models a         *)
+(* conversion applied inside the recurrence, so that g(z) is fed the       *)
+(* converted altitude.  Evaluate: running the forward model only READS the *)
+(* structure; EvalEffect = "inplace_mid" models an in-place z += dz/2 on   *)
+(* the exposed altitude array.  The three defect values occur in           *)
+(* expected-counterexample configs only.                                   *)
 (***************************************************************************)
 EXTENDS Atmosphere
 CONSTANTS NMax,          \* layers 1..NMax
           L0S, LShift,   \* surface exponent in {l - LShift : l \in L0S}
           CS,            \* half-spacing of level exponents
           LMinAll,       \* (shifted) lowest admissible top exponent
-          TS, MUS,       \* layer temperatures / molecular weights (units)
+          TS,            \* layer temperatures (units)
+          ChemPool,      \* the first ChemPool rows of ChemRows may be used as rows of the chemistry table
+          ChemLayout,    \* "rows_are_layers" | "transposed_if_square"
+          UnitAt,        \* "return" | "loop": where the length-unit conversion is applied
+          ULoop,         \* the unit factor of the "loop" variant (1 otherwise)
+          EvalEffect,    \* "readonly" | "inplace_mid": what evaluating the model does to the structure
           RADS, GMS,     \* planet radius / GM (units)
           Slicing,       \* "layer" | "droplast"
           Export
-VARIABLES phase, n, lev, lay, T, mu, rad, gm, i, z, g, H, prof
-vars == <<phase, n, lev, lay, T, mu, rad, gm, i, z, g, H, prof>>
+VARIABLES phase, n, lev, lay, T, tab, mix, mu, rad, gm, i, z, g, H, prof
+vars == <<phase, n, lev, lay, T, tab, mix, mu, rad, gm, i, z, g, H, prof>>
+
+\* Chemistry tables.  Mixing ratios are numerators over ChemDen; gas weights GasW (units of mu).
+\* Every row has pairwise distinct entries and a weighted mean of exactly 1 or 2 units, so that the
+\* recurrence stays within 32-bit rationals; a table is any sequence of rows of the pool whose
+\* entries are ALL distinct (so no table equals its own transpose, shift or reversal).
+ChemRows == << <<2, 1, 7>>, <<6, 3, 5>>, <<4, 8, 11>>, <<14, 7, 9>>, <<12, 2, 4>>, <<2, 9, 11>> >>
+ChemDen  == 32
+GasW     == <<1, 2, 4>>
+NGas     == Len(GasW)
+IMul(a, b) == a * b
+IAdd(a, b) == a + b
+Tables(nl) == {t \in [1..nl -> {ChemRows[j] : j \in 1..ChemPool}] : DistinctTable(t)}
+\* length-unit factors u (the structure is returned in units of 1/u "metres")
+US == {<<1, 1>>, <<1, 2>>, <<3, 1>>}
 
 P10r(e) == IF e >= 0 THEN <<Pow(10, e), 1>> ELSE <<1, Pow(10, -e)>>
 kB == Q(1)
@@ -49,7 +80,8 @@ Init == /\ phase = "levels"
               /\ lev = <<l0 - LShift, c>>            \* (surface exponent, half spacing) until Levels
         /\ lay = <<>>
         /\ T \in [1..n -> TS]
-        /\ mu \in [1..n -> MUS]
+        /\ tab \in Tables(n)
+        /\ mix = <<>> /\ mu = <<>>
         /\ rad \in RADS
         /\ gm \in GMS
         /\ i = 0
@@ -60,8 +92,18 @@ Init == /\ phase = "levels"
 Levels == /\ phase = "levels"
           /\ lev' = [k \in 1..(n + 1) |-> lev[1] - 2 * lev[2] * (k - 1)]
           /\ lay' = [k \in 1..n |-> lev[1] - lev[2] * (2 * k - 1)]
-          /\ phase' = "hydro"
-          /\ UNCHANGED <<n, T, mu, rad, gm, i, z, g, H, prof>>
+          /\ phase' = "chem"
+          /\ UNCHANGED <<n, T, tab, mix, mu, rad, gm, i, z, g, H, prof>>
+
+\* the chemistry reads its table: one row per layer, one column per gas
+Chemistry == /\ phase = "chem"
+             /\ LET m == IF ChemLayout = "transposed_if_square" /\ n = NGas
+                         THEN [gs \in 1..NGas |-> [k \in 1..n |-> tab[gs][k]]]
+                         ELSE ExposedMix(tab, NGas)
+                IN  /\ mix' = m
+                    /\ mu' = [k \in 1..n |-> Norm(SumProd(IMul, IAdd, 0, [gs \in 1..NGas |-> m[gs][k]], GasW), ChemDen)]
+             /\ phase' = "hydro"
+             /\ UNCHANGED <<n, lev, lay, T, tab, rad, gm, i, z, g, H, prof>>
 
 Lr(k) == Q(lev[k] - lev[k + 1])        \* ln(P_k / P_{k+1}) in units of ln 10
 
@@ -70,13 +112,15 @@ Step == /\ phase = "hydro" /\ i < n
         /\ LET k  == i + 1
                r2 == XMul(XAdd(Q(rad), z[k]), XAdd(Q(rad), z[k]))
                gk == XDiv(Q(gm), r2)
-               Hk == XDiv(XMul(kB, Q(T[k])), XMul(Q(mu[k]), gk))
-               dz == XMul(Hk, Lr(k))
+               Hk == XDiv(XMul(kB, Q(T[k])), XMul(mu[k], gk))
+               \* UnitAt = "loop": the thickness is converted before it is accumulated, so the next
+               \* gravity is evaluated at an altitude in the wrong unit (ULoop = 1 otherwise)
+               dz == XMul(XMul(Hk, Lr(k)), IF UnitAt = "loop" THEN Q(ULoop) ELSE Q(1))
            IN  /\ g' = Append(g, gk)
                /\ H' = Append(H, Hk)
                /\ z' = Append(z, XAdd(z[k], dz))
         /\ i' = i + 1
-        /\ UNCHANGED <<phase, n, lev, lay, T, mu, rad, gm, prof>>
+        /\ UNCHANGED <<phase, n, lev, lay, T, tab, mix, mu, rad, gm, prof>>
 
 \* what is exposed: altitude of the layer bottoms, one g and H per layer
 Profiles == /\ phase = "hydro" /\ i = n
@@ -84,16 +128,25 @@ Profiles == /\ phase = "hydro" /\ i = n
                IN prof' = [pressure_profile |-> Len(lay), temp_profile |-> Len(T), density_profile |-> Len(lay),
                            altitude_profile |-> Len(z) - 1, gravity_profile |-> perlayer,
                            scaleheight_profile |-> perlayer, mu_profile |-> Len(mu),
-                           active_mix_profile |-> n, inactive_mix_profile |-> n,
+                           active_mix_profile |-> Len(mix[1]), inactive_mix_profile |-> Len(mix[NGas]),
                            pressure_levels |-> Len(lev), altitude_boundaries |-> Len(z), deltaz |-> Len(z) - 1]
             /\ phase' = "done"
-            /\ UNCHANGED <<n, lev, lay, T, mu, rad, gm, i, z, g, H>>
+            /\ UNCHANGED <<n, lev, lay, T, tab, mix, mu, rad, gm, i, z, g, H>>
 
-Next == Levels \/ Step \/ Profiles
+\* running the forward model (path integral) only reads the structure
+Evaluate == /\ phase = "done"
+            /\ z' = IF EvalEffect = "inplace_mid"
+                    THEN [k \in 1..Len(z) |-> IF k <= n THEN XAdd(z[k], XMul(XSub(z[k + 1], z[k]), <<1, 2>>)) ELSE z[k]]
+                    ELSE z
+            /\ phase' = "evaluated"
+            /\ UNCHANGED <<n, lev, lay, T, tab, mix, mu, rad, gm, i, g, H, prof>>
+
+Next == Levels \/ Chemistry \/ Step \/ Profiles \/ Evaluate
 Spec == Init /\ [][Next]_vars
 
 Built == phase # "levels"
-Done  == phase = "done"
+Done  == phase \in {"done", "evaluated"}
+HasChem == phase \notin {"levels", "chem"}
 Rho(k) == XDiv(P10r(lay[k]), XMul(kB, Q(T[k])))
 
 \* ------------------------------------------------------------ invariants
@@ -126,15 +179,38 @@ AltitudeStrictlyIncreasing ==
 GravityFallsOff == SeqStrictlyDecreasing(XLt, g) /\ \A k \in 1..Len(g) : XLt(Q(0), g[k])
 StepRelation ==
     \A k \in 1..i : HydroStepRel(XMul, XAdd, REqual, z[k], z[k + 1], XSub(z[k + 1], z[k]), H[k], g[k],
-                                 Q(T[k]), Q(mu[k]), Lr(k), Q(rad), Q(gm), kB)
+                                 Q(T[k]), mu[k], Lr(k), Q(rad), Q(gm), kB)
+\* what a route returns when asked for the length unit 1/u: everything of dimension length times u
+Returned(u) == [z |-> [k \in 1..Len(z) |-> IF UnitAt = "loop" THEN z[k] ELSE XMul(z[k], u)],
+                H |-> [k \in 1..Len(H) |-> XMul(H[k], u)],
+                g |-> [k \in 1..Len(g) |-> XMul(g[k], u)]]
+UnitsChecked == IF UnitAt = "loop" THEN {Q(ULoop)} ELSE US
+\* the step obligation holds between the returned numbers in every length unit
+StepRelationAnyUnit ==
+    \A u \in UnitsChecked :
+        LET r == Returned(u)
+        IN  \A k \in 1..i : HydroStepRelUnit(XMul, XAdd, REqual, u, r.z[k], r.z[k + 1], XSub(r.z[k + 1], r.z[k]),
+                                             r.H[k], r.g[k], Q(T[k]), mu[k], Lr(k), Q(rad), Q(gm), kB)
+\* mixing ratios exposed per gas are the columns of the table, layer by layer; mu is the weighted mean
+\* of the layer's own row; the tables of this model make a misalignment visible
+MixAlignedWithLayers ==
+    /\ DistinctTable(tab)
+    /\ HasChem => /\ Len(mix) = NGas
+                  /\ MixAlignedRel(REqual, mix, tab, n)
+                  /\ Len(mu) = n
+                  /\ \A k \in 1..n : /\ WeightedMeanRel(XMul, XAdd, REqual, Q(0), mu[k],
+                                                         [gs \in 1..NGas |-> [kk \in 1..n |-> Norm(tab[kk][gs], ChemDen)]],
+                                                         k, [gs \in 1..NGas |-> Q(GasW[gs])])
+                                     /\ XLt(Q(0), mu[k])
 DensityIdealGas ==
     Built => \A k \in 1..n : DensityRel(XMul, REqual, Rho(k), P10r(lay[k]), Q(T[k]), kB) /\ XLt(Q(0), Rho(k))
 OneEntryPerLayer == Done => OneEntryPerLayerRec(n, prof, LayerProfiles)
 FitsInv == /\ \A k \in 1..Len(z) : Fits(z[k])
            /\ \A k \in 1..Len(g) : Fits(g[k]) /\ Fits(H[k])
 
-Emit == (Export /\ Done) =>
-    PrintT(<<"VEC", ToJson([n |-> n, lev |-> lev, lay |-> lay, T |-> T, mu |-> mu, rad |-> rad, gm |-> gm,
+Emit == (Export /\ phase = "done") =>
+    PrintT(<<"VEC", ToJson([n |-> n, lev |-> lev, lay |-> lay, T |-> T, mu |-> mu, tab |-> tab, mix |-> mix,
+                            den |-> ChemDen, w |-> GasW, rad |-> rad, gm |-> gm,
                             z |-> z, g |-> g, H |-> H, rho |-> [k \in 1..n |-> Rho(k)], prof |-> prof,
                             inputs |-> [j \in 1..Len(OptionSeq) |->
                                           [orient |-> OptionSeq[j].orient, reverse |-> OptionSeq[j].reverse,
